@@ -6,6 +6,7 @@ RULE = ("exhaustive: every word over {a,b} to length L2, {a,b,c} to length L3, A
         "{00,09,41,5c,61,7f,80,c3,ff} to length 4 (thorough: over the first seven to length 6); random / periodic / mixed-case byte strings (hex-encoded, "
         "all 256 values) to 3000 bytes and a few up to MAXLEN; "
         "then random, periodic (powers), near-periodic (a power with one letter changed) and Fibonacci words up to MAXLEN; "
+        "exact powers u^m just above 2^16, 2^17 and near 10^6 letters (period 1, short and long periods, rotated, and with one letter changed) in BOTH tiers; "
         "every rotation of a sample of words is also submitted (canonicalisation clause). non-trivial = length >= 2 and not a "
         "single repeated letter; distinct by case text")
 EXHAUSTIVE = {"quick": False, "thorough": True}
@@ -65,6 +66,23 @@ def cases(seed, tier):
         yield ["rotate", w[k:] + w[:k]]
         yield ["rotate", randword(r, "ACGT", L)]
     yield ["rotatehex", hx([r.choice([0x41, 0x61, 0x80, 0xff]) for _ in range(33000)])]
+    # exact powers u^m (m >= 2) just above 2^16, 2^17 and near 10^6 letters - period 1, short and long periods -
+    # each also rotated, and with one letter changed (the quantifier names powers up to 10^6 characters)
+    def power_at_least(u, total): return u * (-(-total // len(u)))
+    pw = []
+    for total in [65536, 131072]:
+        for u in ["a", "TA", "GATTACA", "ACGTTGCA", randword(r, "ACGT", 13), randword(r, "ab", 1000),
+                  randword(r, "ACGT", total // 3 + 1), randword(r, "ACGT", total // 2)]:
+            pw.append(power_at_least(u, total))
+    for u in ["a", "TA", "GATTACA", randword(r, "ACGT", 500000)]:
+        pw.append(power_at_least(u, 1000000))
+    for i, w in enumerate(pw):
+        k = r.randrange(len(w))
+        yield ["rotate", w if i % 2 == 0 else w[k:] + w[:k]]
+        if i % 3 == 0:
+            p = r.randrange(len(w))
+            yield ["rotate", w[:p] + ("C" if w[p] != "C" else "G") + w[p + 1:]]
+    yield ["rotatehex", hx(power_at_least([0x80, 0xff, 0x41], 65536))]
     for i in range(n):
         kind = r.choice(["rand", "power", "near", "fib", "rots"])
         if kind == "rand":
